@@ -4,7 +4,12 @@ import RawPanelVerif.Gen.Icons
 
 Observed for one text state and geometry `(w, h, shrink, border)`: the returned image's `Width`, `Height`, its byte
 slice `A`, its RGB565 pixel/background colours, the slice `Ainv` of the same state rendered with `Inverted` flipped,
-and whether a second rendering gave the same bytes.
+and whether every other rendering of an equal state gave the same bytes (`det`).  "Depends only on its inputs" is a
+statement about the process the call runs in, so the observation `det` is made across calls: the state rendered again
+after other states (the other font faces) were rendered, rendered by a fresh process, and rendered before and after a
+*sibling* state with absent sub-messages was rendered and its owner then edited every field of the sub-messages the
+renderer had filled in (a caller may do with its own message what it likes; a default object shared between filled
+states would leak those edits into every later state with an absent sub-message).
 
 Clauses: `size` (exact requested size), `deterministic`, `active` (outside the active area left by shrink and border
 every pixel has the blank value), `inversion` (`Ainv` is the complement of `A` over the tile), `colours` (RGB export
